@@ -119,6 +119,22 @@ def frame_hash(df):
     return hash(df.to_csv())
 
 
+def guard(chk, kind, cfg, rec, fn, *args):
+    """run one cell; an exception raised inside zEpid on a valid input is a failure of the property (no weights were
+    produced), recorded with a replayable case; an exception of the harness itself propagates (tool failure)"""
+    import traceback
+    import common
+    try:
+        fn(chk, *args)
+    except Exception as e:
+        frames = traceback.extract_tb(e.__traceback__)
+        if not any(f.filename.startswith(common.REPO + '/zepid') for f in frames):
+            raise
+        chk.case({'kind': kind, 'cfg': cfg}, None)
+        chk.d(False, '%s raised %s on a valid input: %s' % (kind, type(e).__name__, str(e)[:120]),
+              {'kind': kind, 'cfg': cfg, 'data': rec, 'traceback': traceback.format_exc()[-1500:]})
+
+
 # ------------------------------------------------------------------------------------------- IPTW
 def mixed_dataset(rng, missing=False):
     n = int(rng.integers(150, 400))
@@ -294,26 +310,29 @@ def run_iptw_family(chk, drv, rng, tier):
             for tgt in ('population', 'exposed', 'unexposed'):
                 for stab, numer in ((False, '1'), (True, '1'), (True, 'C(L1)')):
                     for bound in BOUNDS:
-                        iptw_cell(chk, drv, df, dict(weights=wcol, standardize=tgt, stabilized=stab, numerator=numer,
-                                                     bound=bound, denominator=denom), refs, dsid, rec)
+                        cfg = dict(weights=wcol, standardize=tgt, stabilized=stab, numerator=numer, bound=bound,
+                                   denominator=denom)
+                        guard(chk, 'IPTW', cfg, rec, iptw_cell, drv, df, cfg, refs, dsid, rec)
         # stochastic plans
         k1 = int(df['L1'].nunique())
         conds = [["df['L1']==%d" % v for v in range(k1)], ["df['L2']==1", "df['L2']==0"],
                  ["(df['L2']==1) & (df['x']>0)", "(df['L2']==1) & (df['x']<=0)", "df['L2']==0"]]
         for wcol in (None, 'w'):
             for p in (0.0, 0.25, 0.5, 0.8, 1.0):
-                stoch_cell(chk, drv, df, dict(weights=wcol, p=p, conditional=None, denominator=denom), refs, dsid, rec)
+                cfg = dict(weights=wcol, p=p, conditional=None, denominator=denom)
+                guard(chk, 'StochasticIPTW', cfg, rec, stoch_cell, drv, df, cfg, refs, dsid, rec)
             for cs in conds:
                 ps = [float(v) for v in np.round(rng.uniform(0, 1, size=len(cs)), 2)]
-                stoch_cell(chk, drv, df, dict(weights=wcol, p=ps, conditional=cs, denominator=denom), refs, dsid, rec)
+                cfg = dict(weights=wcol, p=ps, conditional=cs, denominator=denom)
+                guard(chk, 'StochasticIPTW', cfg, rec, stoch_cell, drv, df, cfg, refs, dsid, rec)
     # outcome missingness weights
     for i in range(4 if tier == 'quick' else 16):
         df = relabel(mixed_dataset(rng, missing=True), rng, ['shuffled', 'default', 'shifted'][i % 3])
         rec = {'frame': gen.frame_record(df), 'n': len(df)}
         for stab, numer in ((False, None), (True, None), (True, 'A + L2')):
             for bound in (False, 0.25, [0.3, 0.8]):
-                ipmw_outcome_cell(chk, drv, df, dict(stabilized=stab, numerator=numer, bound=bound,
-                                                     denominator='A + L2 + x'), None, frame_hash(df), rec)
+                cfg = dict(stabilized=stab, numerator=numer, bound=bound, denominator='A + L2 + x')
+                guard(chk, 'IPTW.missing_model', cfg, rec, ipmw_outcome_cell, drv, df, cfg, None, frame_hash(df), rec)
 
 
 # ------------------------------------------------------------------------------------------- IPMW
@@ -491,8 +510,9 @@ def run_ipmw(chk, drv, rng, tier):
                         if k == 3:
                             variants.append((['L + x', 'L'], ['1'], False))    # fewer models than variables: last repeated
                         for md, mn, single in variants:
-                            ipmw_cell(chk, drv, df, dict(k=k, pattern=list(pattern), stabilized=stab, denominators=md,
-                                                         numerators=mn, single=single, index=how), frame_hash(df), rec)
+                            cfg = dict(k=k, pattern=list(pattern), stabilized=stab, denominators=md, numerators=mn,
+                                       single=single, index=how)
+                            guard(chk, 'IPMW', cfg, rec, ipmw_cell, drv, df, cfg, frame_hash(df), rec)
     ipmw_malformed(chk, drv, rng)
 
 
@@ -626,8 +646,9 @@ def ipcw_flat_cell(chk, drv, df, cfg, dsid, rec):
     for j, r in enumerate(exp_rows):
         last[r[0]] = j
     unc = [0 if (last[r[0]] == j and r[3] == 0 and r[2] != tmax) else 1 for j, r in enumerate(exp_rows)]
-    got_rows = [[int(a), int(b), float(c), int(e)] for a, b, c, e in
-                zip(lf['id'], lf['t_enter'], lf['t_out'], lf['d'])]
+    def _i(v):
+        return None if pd.isna(v) else int(v)
+    got_rows = [[_i(a), _i(b), float(c), _i(e)] for a, b, c, e in zip(lf['id'], lf['t_enter'], lf['t_out'], lf['d'])]
     chk.d(got_rows == exp_rows, 'IPCW flat-to-long conversion: unit intervals [k, k+1) up to T, event on the last record',
           dict(case, impl_head=got_rows[:10], want_head=exp_rows[:10]))
     chk.d(lf['__uncensored__'].astype(int).tolist() == unc, 'IPCW (flat) uncensored indicator = 0 iff last record of the '
@@ -674,12 +695,13 @@ def run_ipcw(chk, drv, rng, tier):
                 df = base if order == 'sorted' else base.iloc[rng.permutation(len(base))]
                 df = relabel(df.reset_index(drop=True), rng, how)
                 rec = {'frame': gen.frame_record(df), 'rows': len(df)}
-                ipcw_cell(chk, drv, df, dict(order=order, index=how, denominator='t + L + x', numerator='t'),
-                          frame_hash(df), rec)
+                cfg = dict(order=order, index=how, denominator='t + L + x', numerator='t')
+                guard(chk, 'IPCW', cfg, rec, ipcw_cell, drv, df, cfg, frame_hash(df), rec)
     for i in range(6 if tier == 'quick' else 30):
         how = ['default', 'shifted', 'shuffled'][i % 3]
         df = relabel(flat_dataset(rng), rng, how)
-        ipcw_flat_cell(chk, drv, df, dict(index=how), frame_hash(df), {'frame': gen.frame_record(df), 'rows': len(df)})
+        rec = {'frame': gen.frame_record(df), 'rows': len(df)}
+        guard(chk, 'IPCW-flat', dict(index=how), rec, ipcw_flat_cell, drv, df, dict(index=how), frame_hash(df), rec)
 
 
 # ------------------------------------------------------------------------------------------- entry points
